@@ -108,7 +108,7 @@ def validate(spec, norm_path, wd, tag, timeout=900):
 
 
 def sim_check(prop, tier, seed, scenarios, spec, rule_filter, required_counters, level_note, keep_sleep=False,
-              jobs=4, known_prefix=None, mc=None):
+              jobs=4, known_prefix=None, mc=None, norm=None):
     """scenarios: list of scenario dicts. rule_filter(rule)->bool selects the rules that are verdicts for this property
     (all rules are sound; the others are reported under the property that owns them when its own check runs)."""
     wd = vlib.workdir(prop)
@@ -134,7 +134,7 @@ def sim_check(prop, tier, seed, scenarios, spec, rule_filter, required_counters,
                 run = [{"ev": "Reset", "name": scenarios[k].get("name"), "frag": scenarios[k].get("frag")},
                        {"ev": "SimError", "err": "scenario not executed"}]
             start = n + 1
-            for e in tracenorm.normalise(run):
+            for e in (norm or tracenorm.normalise)(run):
                 if e["ev"] == "Sleep" and not keep_sleep:
                     continue
                 if e["ev"] == "Other":
@@ -208,13 +208,13 @@ def sim_check(prop, tier, seed, scenarios, spec, rule_filter, required_counters,
                             "the simulated network delivers datagrams whole or not at all; one virtual clock"]}
 
 
-def sim_replay(prop, path, spec, keep_sleep=False):
+def sim_replay(prop, path, spec, keep_sleep=False, norm=None):
     rep = json.load(open(path))
     wd = vlib.workdir(prop + ".replay")
     runs = run_sim_batch([rep["scenario"]], wd, "r", jobs=1)
     norm_path = os.path.join(wd, "trace.norm.ndjson")
     with open(norm_path, "w") as g:
-        for e in tracenorm.normalise(runs[0] or []):
+        for e in (norm or tracenorm.normalise)(runs[0] or []):
             if e["ev"] == "Other" or (e["ev"] == "Sleep" and not keep_sleep):
                 continue
             g.write(json.dumps(e, separators=(",", ":")) + "\n")
